@@ -267,7 +267,7 @@ fn io(x: &mut Exec) -> Res {
         let (w_co, r_co) = (x.rng.chance(1, 2), x.rng.chance(3, 4));
         let timed = if x.rng.chance(1, 3) { Some(x.rng.range(2, 3)) } else { None };
         if let Some(ms) = timed {
-            x.timeout_used(Duration::from_millis(ms));
+            x.io_timeout_used(Duration::from_millis(ms));
         }
         desc += &format!("[#{} total={} sndbuf={} w={} r={} read_timeout={:?}] ", c, total, sb, if w_co { "co" } else { "th" }, if r_co { "co" } else { "th" }, timed);
         let (mut r1, mut r2) = (x.rng.fork(), x.rng.fork());
@@ -420,7 +420,7 @@ fn dgram(x: &mut Exec) -> Res {
     };
     let received = Arc::new(AtomicUsize::new(0));
     let (s_co, r_co) = (x.rng.chance(1, 2), x.rng.chance(3, 4));
-    x.timeout_used(Duration::from_millis(5));
+    x.io_timeout_used(Duration::from_millis(5));
     if unix {
         let (a, b) = UnixDatagram::pair().map_err(|e| Fail::Inconclusive(format!("pair: {}", e)))?;
         let (lens2, sd, g1) = (lens.clone(), sender_done.clone(), grave.clone());
@@ -606,7 +606,7 @@ fn iot(x: &mut Exec) -> Res {
         })
         .collect();
     for p in &plan {
-        x.timeout_used(Duration::from_micros(p.0));
+        x.io_timeout_used(Duration::from_micros(p.0));
     }
     let (go_tx, go_rx) = may::sync::mpsc::channel::<Option<u64>>();
     let g1 = grave.clone();
